@@ -480,6 +480,53 @@ pub fn run_op(op: &str, a: &[Tok]) -> String {
                 format!("{} @now={}", fmt_unit(&r), now_before)
             }
         }
+        "bytes_rt" => {
+            let b = a[1].bytes();
+            macro_rules! rt {
+                ($T:ty) => {
+                    match <$T>::try_from(b) {
+                        Ok(v) => format!("ok:{}", hex::encode(Vec::<u8>::from(&v))),
+                        Err(e) => format!("err:{}", err_kind(&e)),
+                    }
+                };
+            }
+            match a[0].word() {
+                "pk" => rt!(PublicKey<C>),
+                "mpk" => rt!(MultiPublicKey<C>),
+                "pop" => rt!(ProofOfPossession<C>),
+                "sk" => rt!(SecretKey<C>),
+                "pcs" => rt!(ProofCommitmentSecret<C>),
+                "pcc" => rt!(ProofCommitmentChallenge<C>),
+                "skenum" => rt!(SecretKeyEnum),
+                "sig" => rt!(Signature<C>),
+                "aggsig" => rt!(AggregateSignature<C>),
+                "multisig" => rt!(MultiSignature<C>),
+                "commitment" => rt!(ProofCommitment<C>),
+                "pok" => rt!(ProofOfKnowledge<C>),
+                "pokts" => rt!(ProofOfKnowledgeTimestamp<C>),
+                "skshare" => rt!(SecretKeyShare<C>),
+                "pkshare" => rt!(PublicKeyShare<C>),
+                "sdshare" => rt!(SignDecryptionShare<C>),
+                "egshare" => rt!(ElGamalDecryptionShare<C>),
+                "inner1" => rt!(InnerPointShareG1),
+                "inner2" => rt!(InnerPointShareG2),
+                "sigshare" => rt!(SignatureShare<C>),
+                "scct" => rt!(SignCryptCiphertext<C>),
+                "scdk" => rt!(SignCryptDecryptionKey<C>),
+                "egdk" => rt!(ElGamalDecryptionKey<C>),
+                "tlct" => rt!(TimeCryptCiphertext<C>),
+                "egct" => rt!(ElGamalCiphertext<C>),
+                "egproof" => rt!(ElGamalProof<C>),
+                t => format!("unknown-type:{t}"),
+            }
+        }
+        "skenum_from_be" => {
+            let o: Option<SecretKeyEnum> = SecretKeyEnum::from_be_bytes(a[0].bytes()).into();
+            match o {
+                Some(k) => format!("some:{}", hex::encode(k.to_be_bytes())),
+                None => "none".into(),
+            }
+        }
         "compute_y" => hex::encode(bsc_be(&<C as BlsSignatureProof>::compute_y(tok_sig(&a[0]), a[1].num() as u64))),
         _ => format!("unknown-op:{op}"),
     }
